@@ -253,6 +253,11 @@ func (c *connection) onProcess(onConnect OnConnect, onRequest OnRequest) (proces
 		if closedBy = c.status(closing); closedBy != 0 && c.lock(processing) {
 			// whoever closed the connection failed to get the processing lock, here help to do closeCallback.
 			// fd is already detached if it was closed by poller, but not if it was closed by user.
+			if closedBy == poller && onRequest != nil && c.Reader().Len() > 0 {
+				// the peer sent more data and closed after the loop above saw an empty buffer:
+				// the data must still be processed before the connection is torn down.
+				goto START
+			}
 			c.closeCallback(false, closedBy == user)
 			panicked = false
 			return
